@@ -14,6 +14,7 @@
   Only `theorem` declarations here; the proofs are in Proofs/AlgTies.lean.
 -/
 import BioCantor.Proofs.AlgTies
+set_option autoImplicit false   -- an unresolved name in a statement must be an error, never a bound variable
 namespace BioCantor.Props.C02Ties
 open BioCantor BioCantor.GenP BioCantor.Proofs.Ties BioCantor.Proofs.AlgTies BioCantor.Model
 
